@@ -384,6 +384,9 @@ func deepCopy(v any) any {
 		}
 		return out
 	case exec.Vars:
+		if v == nil {
+			return v
+		}
 		out := make(exec.Vars, len(v))
 		for k, e := range v {
 			out[k] = deepCopy(e)
@@ -408,9 +411,6 @@ func orderOpen(root *Node, docs ...any) bool {
 	}
 	for _, d := range docs {
 		if v, ok := d.(exec.Vars); ok {
-			if len(v) >= 2 {
-				// $var.* cannot address the vars map itself; only values matter
-			}
 			for _, e := range v {
 				if maxMembers(e) >= 2 {
 					return true
